@@ -159,6 +159,80 @@ Proof.
   cbn beta. intros z' Hz'. split; [eapply adv_trans; eauto|]. destruct Hz' as (_ & _ & H). cbn [mv lpos] in H. lia.
 Qed.
 
+(* l.skipTemplate() *)
+Lemma skip_tmpl_spec c z : cfg_ok c -> lx_wf z ->
+  safe (skip_tmpl c z) (fun o => match o with Some z' => adv z z' /\ lpos z < lpos z' | None => True end).
+Proof.
+  intros Hc Hw. unfold skip_tmpl.
+  eapply safe_bind; [apply tmpl_at_spec; assumption|]. cbn beta. intros t Ht.
+  destruct t; [|exact I]. destruct (Ht eq_refl) as [Hl Hr].
+  eapply safe_bind; [apply tmpl_skip_spec; assumption|]. cbn beta. intros z' (Hz1 & Hz2). cbn [safe]. split; [exact Hz1|lia].
+Qed.
+
+Lemma skip_tmpl_none z : skip_tmpl no_tmpl z = Ok None.
+Proof. reflexivity. Qed.
+
+(* the cursor loop rule for a loop whose first test is l.skipTemplate() *)
+Lemma with_tmpl_cloop_has {S R} c (cur : S -> lx) (setc : S -> lx -> S) (z0 : lx) (J : S -> Prop) (Q : R -> Prop)
+      (body : S -> res (lp S R)) (fuel : nat) (s0 : S) (h0 : bool) :
+  cfg_ok c -> lx_wf z0 -> (forall s z', cur (setc s z') = z') ->
+  (forall s z', J s -> adv (cur s) z' -> lpos (cur s) < lpos z' -> J (setc s z')) ->
+  (forall s, adv z0 (cur s) -> J s ->
+     safe (body s) (fun x => match x with
+                             | Cont s' => adv z0 (cur s') /\ lpos (cur s) < lpos (cur s') /\ J s'
+                             | Brk r => Q r
+                             end)) ->
+  adv z0 (cur s0) -> J s0 -> (Z.to_nat (lx_len z0 - lpos (cur s0)) < fuel)%nat ->
+  safe (loop fuel (with_tmpl c cur setc body) (s0, h0)) (fun r => Q (fst r) /\ (h0 = true -> snd r = true)).
+Proof.
+  intros Hc Hw Hcs HJ Hb Ha Hj Hf.
+  apply (safe_cloop (fun sh : S * bool => cur (fst sh)) z0 (fun sh => J (fst sh) /\ (h0 = true -> snd sh = true))); [|exact Ha|split; [exact Hj|tauto]|exact Hf].
+  intros [s h] Has [Hjs Hh]. cbn [fst snd] in *. unfold with_tmpl.
+  eapply safe_bind; [apply skip_tmpl_spec; [exact Hc|eauto using adv_wf]|]. cbn beta. intros [z'|] Hsk.
+  - destruct Hsk as [Hz1 Hz2]. cbn [safe fst snd]. rewrite Hcs. split; [eauto using adv_trans|split; [exact Hz2|split; [apply HJ; assumption|tauto]]].
+  - eapply safe_bind; [apply Hb; assumption|]. cbn beta. intros [s'|r] Hx; cbn [safe fst snd]; tauto.
+Qed.
+
+Lemma with_tmpl_cloop {S R} c (cur : S -> lx) (setc : S -> lx -> S) (z0 : lx) (J : S -> Prop) (Q : R -> Prop)
+      (body : S -> res (lp S R)) (fuel : nat) (s0 : S) (h0 : bool) :
+  cfg_ok c -> lx_wf z0 -> (forall s z', cur (setc s z') = z') ->
+  (forall s z', J s -> adv (cur s) z' -> lpos (cur s) < lpos z' -> J (setc s z')) ->
+  (forall s, adv z0 (cur s) -> J s ->
+     safe (body s) (fun x => match x with
+                             | Cont s' => adv z0 (cur s') /\ lpos (cur s) < lpos (cur s') /\ J s'
+                             | Brk r => Q r
+                             end)) ->
+  adv z0 (cur s0) -> J s0 -> (Z.to_nat (lx_len z0 - lpos (cur s0)) < fuel)%nat ->
+  safe (loop fuel (with_tmpl c cur setc body) (s0, h0)) (fun r => Q (fst r)).
+Proof.
+  intros Hc Hw Hcs HJ Hb Ha Hj Hf. eapply safe_mono; [eapply with_tmpl_cloop_has; eassumption|]. cbn beta. tauto.
+Qed.
+
+(* without delimiters the loop is the plain loop *)
+Lemma loop_with_no_tmpl {S R} (cur : S -> lx) (setc : S -> lx -> S) (body : S -> res (lp S R)) : forall fuel s h,
+  loop fuel (with_tmpl no_tmpl cur setc body) (s, h) = (r <-- loop fuel body s ;; Ok (r, h)).
+Proof.
+  induction fuel as [|k IH]; intros s h; [reflexivity|]. cbn [loop]. unfold with_tmpl at 1. rewrite skip_tmpl_none. cbn [rbind].
+  destruct (body s) as [[s'|r]| |]; cbn [rbind]; [apply IH|reflexivity|reflexivity|reflexivity].
+Qed.
+
+(* partial correctness: an invariant over (state, flag) *)
+Lemma with_tmpl_inv {S R} c (cur : S -> lx) (setc : S -> lx -> S) (I : S * bool -> Prop) (Q : R * bool -> Prop)
+      (body : S -> res (lp S R)) :
+  (forall s h z', I (s, h) -> tmpl_at c (cur s) = Ok true -> tmpl_skip c (cur s) = Ok z' -> I (setc s z', true)) ->
+  (forall s h x, I (s, h) -> body s = Ok x -> match x with Cont s' => I (s', h) | Brk r => Q (r, h) end) ->
+  forall fuel sh r, I sh -> loop fuel (with_tmpl c cur setc body) sh = Ok r -> Q r.
+Proof.
+  intros Ht Hb fuel sh r Hi H.
+  refine (loop_inv I Q (with_tmpl c cur setc body) _ fuel sh r Hi H).
+  clear Hi H. intros [s h] x Hs Hx. unfold with_tmpl, skip_tmpl in Hx.
+  destruct (tmpl_at c (cur s)) as [t| |] eqn:Et; cbn [rbind] in Hx; try discriminate.
+  destruct t.
+  - destruct (tmpl_skip c (cur s)) as [z'| |] eqn:Ek; cbn [rbind] in Hx; try discriminate. injection Hx as <-. eapply Ht; eauto.
+  - cbn [rbind] in Hx. destruct (body s) as [y| |] eqn:Eb; cbn [rbind] in Hx; try discriminate. injection Hx as <-.
+    specialize (Hb s h y Hs Eb). destruct y; exact Hb.
+Qed.
+
 Lemma tmpl_rep_spec c z0 z : cfg_ok c -> tb c <> [] -> lx_wf z0 -> adv z0 z ->
   forall fuel, (Z.to_nat (lx_len z0 - lpos z) < fuel)%nat ->
   safe (loop fuel (tmpl_rep_body c) (z, false)) (fun r => adv z (fst r) /\ (snd r = true -> lpos z < lpos (fst r))).
@@ -238,12 +312,13 @@ Proof. intros (_ & H & _). exact H. Qed.
 (* ---- shiftRawText ------------------------------------------------------------------------------- *)
 Definition sum_adv (z : lx) (r : lx + lx) : Prop := match r with inl z' => adv z z' | inr z' => adv z z' end.
 
-Lemma script_comment_spec zs b : lx_wf zs -> forall fuel, (Z.to_nat (lx_len zs - lpos zs) < fuel)%nat ->
-  safe (loop fuel script_comment_body (zs, b)) (sum_adv zs).
+Lemma script_comment_step zs : lx_wf zs -> forall s : lx * bool, adv zs (fst s) -> True ->
+  safe (script_comment_body s) (fun x => match x with
+                                         | Cont s' => adv zs (fst s') /\ lpos (fst s) < lpos (fst s') /\ True
+                                         | Brk r => sum_adv zs r
+                                         end).
 Proof.
-  intros Hw fuel Hf.
-  apply (safe_cloop fst zs (fun _ => True)); [|apply adv_refl, Hw|exact I|exact Hf].
-  intros [s ins] Ha _. cbn [fst] in *. unfold script_comment_body.
+  intros Hw [s ins] Ha _. cbn [fst] in *. unfold script_comment_body.
   assert (Hws : lx_wf s) by eauto using adv_wf.
   peek0 s c Hc Hp.
   destruct (c =? 45) eqn:E45.
@@ -289,6 +364,14 @@ Proof.
   split; [eapply adv_mv1; eauto|split; [cbn; lia|exact I]].
 Qed.
 
+Lemma script_comment_spec c zs b h : cfg_ok c -> lx_wf zs -> forall fuel, (Z.to_nat (lx_len zs - lpos zs) < fuel)%nat ->
+  safe (loop fuel (script_comment_loop_body c) (zs, b, h)) (fun r => sum_adv zs (fst r)).
+Proof.
+  intros Hc Hw fuel Hf. unfold script_comment_loop_body.
+  apply (with_tmpl_cloop c (fun s : lx * bool => fst s) (fun s z' => (z', snd s)) zs (fun _ => True));
+    [exact Hc|exact Hw|reflexivity|tauto|apply script_comment_step; exact Hw|apply adv_refl, Hw|exact I|exact Hf].
+Qed.
+
 Definition shifted (z : lx) (v : sl) (z' : lx) : Prop :=
   lbuf z' = lbuf z /\ so v = lstart z /\ so v + sn v = lpos z' /\ lstart z' = lpos z' /\ lpos z <= lpos z' <= lx_len z.
 
@@ -307,6 +390,8 @@ Proof.
   intros [s h0] Ha _. cbn [fst] in *. unfold rawtext_body.
   assert (Hws : lx_wf s) by eauto using adv_wf.
   peek0 s c0 Hc0 Hp0.
+  eapply safe_bind; [apply skip_tmpl_spec; assumption|]. cbn beta. intros [zt|] Hsk.
+  { destruct Hsk as [Hz1 Hz2]. cbn [safe fst]. split; [eauto using adv_trans|split; [exact Hz2|exact I]]. }
   destruct (c0 =? 60) eqn:E60.
   { peek1 s c0 Hp0 c1 Hc1 Hp1.
     destruct (c1 =? 47) eqn:E47.
@@ -339,18 +424,13 @@ Proof.
       specialize (Hsc4 eq_refl).
       assert (Hm4 : adv z (mv s 4)) by (apply adv_mv'; [exact Ha|lia|lia]).
       eapply safe_bind.
-      { apply script_comment_spec; [eauto using adv_wf|].
+      { apply script_comment_spec; [exact Hc|eauto using adv_wf|].
         unfold fuel_of, lx_len. cbn [mv lbuf lpos]. lia. }
-      cbn beta. intros r Hr. destruct r as [z'|z']; cbn [sum_adv] in Hr; cbn [safe fst].
+      cbn beta. intros [r hr] Hr. cbn [fst] in Hr. destruct r as [z'|z']; cbn [sum_adv] in Hr; cbn [safe fst].
       + split; [eauto using adv_trans|split; [|exact I]]. apply adv_lpos_le in Hr. cbn [mv lpos] in Hr. lia.
       + eauto using adv_trans. }
-  eapply safe_bind; [apply tmpl_at_spec; assumption|]. cbn beta. intros t Ht.
-  destruct t.
-  - destruct (Ht eq_refl) as [Hl Hr].
-    eapply safe_bind; [apply tmpl_skip_spec; assumption|]. cbn beta. intros z' (Hz1 & Hz2).
-    cbn [safe fst]. split; [eauto using adv_trans|split; [lia|exact I]].
-  - destruct (eof0 s c0) eqn:Ee; cbn [safe fst]; [exact Ha|].
-    split; [eapply adv_mv1; eauto|split; [cbn; lia|exact I]].
+  destruct (eof0 s c0) eqn:Ee; cbn [safe fst]; [exact Ha|].
+  split; [eapply adv_mv1; eauto|split; [cbn; lia|exact I]].
 Qed.
 
 Lemma plaintext_loop_spec z : lx_wf z -> safe (loop (fuel_of z) plaintext_body z) (fun z' => adv z z').
@@ -389,14 +469,16 @@ Proof.
   rewrite A2. repeat split; try lia; assumption.
 Qed.
 
-Lemma bogus_loop_spec z : lx_wf z ->
+Lemma bogus_loop_spec cf z has : cfg_ok cf -> lx_wf z ->
   (lstart z + 2 <= lpos z \/ (lstart z + 1 <= lpos z /\ exists c, pk z 0 = Some c /\ c <> 62 /\ c <> 0)) ->
-  safe (loop (fuel_of z) bogus_body z)
-       (fun r => adv z (fst r) /\ lstart z + 2 <= lpos (fst r) /\ 0 <= snd r <= 1 /\ lpos (fst r) + snd r <= lx_len z).
+  safe (loop (fuel_of z) (with_tmpl_lx cf bogus_body) (z, has))
+       (fun rh => let r := fst rh in adv z (fst r) /\ lstart z + 2 <= lpos (fst r) /\ 0 <= snd r <= 1 /\ lpos (fst r) + snd r <= lx_len z).
 Proof.
-  intros Hw Hpre.
-  apply (safe_cloop (fun s => s) z (fun s => lstart z + 2 <= lpos s \/ s = z));
-    [|apply adv_refl, Hw|right; reflexivity|apply fuel_enough; reflexivity || lia].
+  intros Hcfg Hw Hpre. unfold with_tmpl_lx.
+  apply (with_tmpl_cloop cf (fun s : lx => s) (fun _ z' => z') z (fun s => lstart z + 2 <= lpos s \/ s = z)
+           (fun r : lx * Z => adv z (fst r) /\ lstart z + 2 <= lpos (fst r) /\ 0 <= snd r <= 1 /\ lpos (fst r) + snd r <= lx_len z));
+    [exact Hcfg|exact Hw|reflexivity| | |apply adv_refl, Hw|right; reflexivity|apply fuel_enough; reflexivity || lia].
+  { intros s z' Hj Hadv Hlt. left. destruct Hj as [Hj| ->]; [lia|]. destruct Hpre as [?|[? _]]; lia. }
   intros s Ha Hj. unfold bogus_body. peek0 s c Hc Hp.
   assert (Hws : lx_wf s) by eauto using adv_wf.
   assert (Hbrk : lstart z + 2 <= lpos s \/ (c <> 62 /\ c <> 0)).
@@ -413,13 +495,13 @@ Proof.
   destruct Hbrk as [Hb|_]; [lia|]. destruct Hj as [Hj| ->]; [lia|]. destruct Hpre as [?|[? _]]; lia.
 Qed.
 
-Lemma shift_bogus_spec z : lx_wf z ->
+Lemma shift_bogus_spec cf z has : cfg_ok cf -> lx_wf z ->
   (lstart z + 2 <= lpos z \/ (lstart z + 1 <= lpos z /\ exists c, pk z 0 = Some c /\ c <> 62 /\ c <> 0)) ->
-  safe (shift_bogus z) (fun r => shifted z (fst (fst r)) (snd r) /\ inview (snd (fst r)) (fst (fst r)) /\
+  safe (shift_bogus cf z has) (fun rh => let r := fst rh in shifted z (fst (fst r)) (snd r) /\ inview (snd (fst r)) (fst (fst r)) /\
                                  so (fst (fst r)) < so (snd (fst r))).
 Proof.
-  intros Hw Hpre. unfold shift_bogus.
-  eapply safe_bind; [apply bogus_loop_spec; assumption|]. cbn beta. intros [z1 n] (Ha & H2 & Hn & Hl). cbn [fst snd] in *.
+  intros Hcf Hw Hpre. unfold shift_bogus.
+  eapply safe_bind; [apply bogus_loop_spec; assumption|]. cbn beta zeta. intros [[z1 n] hr] (Ha & H2 & Hn & Hl). cbn [fst snd] in *.
   destruct (shift_with_text z z1 2 n) as (t & v & z' & Ht & Hs & S1 & S2 & S3 & _); try assumption; try lia.
   rewrite Ht. cbn [rbind]. rewrite Hs. cbn [rbind safe fst snd]. split; [exact S1|split; [exact S2|]].
   destruct S1 as (_ & B2 & _). lia.
@@ -431,11 +513,11 @@ Definition scan_post (z0 : lx) (r : lx * Z) : Prop :=
 Lemma nz3 a b c : a <> 0 -> b <> 0 -> c <> 0 -> nz_list [a; b; c].
 Proof. intros. repeat constructor; assumption. Qed.
 
-Lemma comment_loop_spec z0 : lx_wf z0 -> forall fuel, (Z.to_nat (lx_len z0 - lpos z0) < fuel)%nat ->
-  safe (loop fuel comment_body z0) (scan_post z0).
+Lemma comment_loop_spec cf z0 has : cfg_ok cf -> lx_wf z0 -> forall fuel, (Z.to_nat (lx_len z0 - lpos z0) < fuel)%nat ->
+  safe (loop fuel (with_tmpl_lx cf comment_body) (z0, has)) (fun rh => scan_post z0 (fst rh)).
 Proof.
-  intros Hw fuel Hf.
-  apply (safe_cloop (fun s => s) z0 (fun _ => True)); [|apply adv_refl, Hw|exact I|exact Hf].
+  intros Hcf Hw fuel Hf. unfold with_tmpl_lx.
+  apply (with_tmpl_cloop cf (fun s : lx => s) (fun _ z' => z') z0 (fun _ => True) (scan_post z0)); [exact Hcf|exact Hw|reflexivity|tauto| |apply adv_refl, Hw|exact I|exact Hf].
   intros s Ha _. unfold comment_body. peek0 s c Hc Hp.
   assert (Hws : lx_wf s) by eauto using adv_wf.
   destruct (eof0 s c) eqn:Ee.
@@ -451,11 +533,11 @@ Proof.
   cbn [safe]. split; [eapply adv_mv1; eauto|split; [cbn; lia|exact I]].
 Qed.
 
-Lemma cdata_loop_spec z0 : lx_wf z0 -> forall fuel, (Z.to_nat (lx_len z0 - lpos z0) < fuel)%nat ->
-  safe (loop fuel cdata_body z0) (scan_post z0).
+Lemma cdata_loop_spec cf z0 has : cfg_ok cf -> lx_wf z0 -> forall fuel, (Z.to_nat (lx_len z0 - lpos z0) < fuel)%nat ->
+  safe (loop fuel (with_tmpl_lx cf cdata_body) (z0, has)) (fun rh => scan_post z0 (fst rh)).
 Proof.
-  intros Hw fuel Hf.
-  apply (safe_cloop (fun s => s) z0 (fun _ => True)); [|apply adv_refl, Hw|exact I|exact Hf].
+  intros Hcf Hw fuel Hf. unfold with_tmpl_lx.
+  apply (with_tmpl_cloop cf (fun s : lx => s) (fun _ z' => z') z0 (fun _ => True) (scan_post z0)); [exact Hcf|exact Hw|reflexivity|tauto| |apply adv_refl, Hw|exact I|exact Hf].
   intros s Ha _. unfold cdata_body. peek0 s c Hc Hp.
   assert (Hws : lx_wf s) by eauto using adv_wf.
   destruct (eof0 s c) eqn:Ee.
@@ -467,11 +549,11 @@ Proof.
   cbn [safe]. split; [eapply adv_mv1; eauto|split; [cbn; lia|exact I]].
 Qed.
 
-Lemma doctype_loop_spec z0 : lx_wf z0 -> forall fuel, (Z.to_nat (lx_len z0 - lpos z0) < fuel)%nat ->
-  safe (loop fuel doctype_body z0) (scan_post z0).
+Lemma doctype_loop_spec cf z0 has : cfg_ok cf -> lx_wf z0 -> forall fuel, (Z.to_nat (lx_len z0 - lpos z0) < fuel)%nat ->
+  safe (loop fuel (with_tmpl_lx cf doctype_body) (z0, has)) (fun rh => scan_post z0 (fst rh)).
 Proof.
-  intros Hw fuel Hf.
-  apply (safe_cloop (fun s => s) z0 (fun _ => True)); [|apply adv_refl, Hw|exact I|exact Hf].
+  intros Hcf Hw fuel Hf. unfold with_tmpl_lx.
+  apply (with_tmpl_cloop cf (fun s : lx => s) (fun _ z' => z') z0 (fun _ => True) (scan_post z0)); [exact Hcf|exact Hw|reflexivity|tauto| |apply adv_refl, Hw|exact I|exact Hf].
   intros s Ha _. unfold doctype_body. peek0 s c Hc Hp.
   assert (Hws : lx_wf s) by eauto using adv_wf.
   destruct (c =? 62) eqn:E62.
@@ -482,11 +564,11 @@ Proof.
   cbn [safe]. split; [eapply adv_mv1; eauto|split; [cbn; lia|exact I]].
 Qed.
 
-Lemma endtag_loop_spec z0 : lx_wf z0 -> forall fuel, (Z.to_nat (lx_len z0 - lpos z0) < fuel)%nat ->
-  safe (loop fuel endtag_body z0) (scan_post z0).
+Lemma endtag_loop_spec cf z0 has : cfg_ok cf -> lx_wf z0 -> forall fuel, (Z.to_nat (lx_len z0 - lpos z0) < fuel)%nat ->
+  safe (loop fuel (with_tmpl_lx cf endtag_body) (z0, has)) (fun rh => scan_post z0 (fst rh)).
 Proof.
-  intros Hw fuel Hf.
-  apply (safe_cloop (fun s => s) z0 (fun _ => True)); [|apply adv_refl, Hw|exact I|exact Hf].
+  intros Hcf Hw fuel Hf. unfold with_tmpl_lx.
+  apply (with_tmpl_cloop cf (fun s : lx => s) (fun _ z' => z') z0 (fun _ => True) (scan_post z0)); [exact Hcf|exact Hw|reflexivity|tauto| |apply adv_refl, Hw|exact I|exact Hf].
   intros s Ha _. unfold endtag_body. peek0 s c Hc Hp.
   assert (Hws : lx_wf s) by eauto using adv_wf.
   destruct (c =? 62) eqn:E62.
@@ -518,27 +600,28 @@ Definition markup_post (z : lx) (r : Z * sl * sl * lx) : Prop :=
   let '(ty, v, t, z') := r in
   shifted z v z' /\ inview t v /\ (ty = CommentT \/ ty = TextT \/ ty = DoctypeT) /\ lpos z <= lpos z' /\ so v < so t.
 
-Lemma read_markup_spec z : lx_wf z -> lpos z = lstart z + 2 -> safe (read_markup z) (markup_post z).
+Lemma read_markup_spec cf z has : cfg_ok cf -> lx_wf z -> lpos z = lstart z + 2 ->
+  safe (read_markup cf z has) (fun r => markup_post z (fst r)).
 Proof.
-  intros Hw Hpos. unfold read_markup.
+  intros Hcf Hw Hpos. unfold read_markup.
   eapply safe_bind; [apply at_spec; [exact Hw|repeat constructor; lia]|]. cbn beta. intros a Ha.
   destruct a.
   { specialize (Ha eq_refl). change (len [45; 45]) with 2 in Ha.
     eapply safe_bind.
-    { apply (comment_loop_spec (mv z 2)); [apply (adv_wf z); [exact Hw|apply adv_mv; lia]|]. unfold fuel_of, lx_len. cbn [mv lbuf lpos]. lia. }
-    cbn beta. intros r Hr. apply (scan_post_trans z) in Hr; [|apply adv_mv; lia]. destruct Hr as [Hr Hle]. cbn [mv lpos] in Hle.
-    apply (text_shift_tail z 4 r (fun t v z' => (CommentT, v, t, z'))); try assumption; try lia.
-    intros t v z' S1 S2 S3 S4. unfold markup_post. split; [exact S1|split; [exact S2|split; [tauto|]]].
+    { apply (comment_loop_spec cf (mv z 2)); [exact Hcf|apply (adv_wf z); [exact Hw|apply adv_mv; lia]|]. unfold fuel_of, lx_len. cbn [mv lbuf lpos]. lia. }
+    cbn beta zeta. intros [r hr] Hr. cbn [fst snd] in *. apply (scan_post_trans z) in Hr; [|apply adv_mv; lia]. destruct Hr as [Hr Hle]. cbn [mv lpos] in Hle.
+    apply (text_shift_tail z 4 r (fun t v z' => (CommentT, v, t, z', hr)) (fun x => markup_post z (fst x))); try assumption; try lia.
+    intros t v z' S1 S2 S3 S4. unfold markup_post. cbn [fst]. split; [exact S1|split; [exact S2|split; [tauto|]]].
     destruct Hr as (_ & ? & _). destruct S1 as (_ & B2 & _). split; lia. }
   clear Ha.
   eapply safe_bind; [apply at_spec; [exact Hw|repeat constructor; lia]|]. cbn beta. intros a Ha.
   destruct a.
   { specialize (Ha eq_refl). change (len [91; 67; 68; 65; 84; 65; 91]) with 7 in Ha.
     eapply safe_bind.
-    { apply (cdata_loop_spec (mv z 7)); [apply (adv_wf z); [exact Hw|apply adv_mv; lia]|]. unfold fuel_of, lx_len. cbn [mv lbuf lpos]. lia. }
-    cbn beta. intros r Hr. apply (scan_post_trans z) in Hr; [|apply adv_mv; lia]. destruct Hr as [Hr Hle]. cbn [mv lpos] in Hle.
-    apply (text_shift_tail z 9 r (fun t v z' => (TextT, v, t, z'))); try assumption; try lia.
-    intros t v z' S1 S2 S3 S4. unfold markup_post. split; [exact S1|split; [exact S2|split; [tauto|]]].
+    { apply (cdata_loop_spec cf (mv z 7)); [exact Hcf|apply (adv_wf z); [exact Hw|apply adv_mv; lia]|]. unfold fuel_of, lx_len. cbn [mv lbuf lpos]. lia. }
+    cbn beta zeta. intros [r hr] Hr. cbn [fst snd] in *. apply (scan_post_trans z) in Hr; [|apply adv_mv; lia]. destruct Hr as [Hr Hle]. cbn [mv lpos] in Hle.
+    apply (text_shift_tail z 9 r (fun t v z' => (TextT, v, t, z', hr)) (fun x => markup_post z (fst x))); try assumption; try lia.
+    intros t v z' S1 S2 S3 S4. unfold markup_post. cbn [fst]. split; [exact S1|split; [exact S2|split; [tauto|]]].
     destruct Hr as (_ & ? & _). destruct S1 as (_ & B2 & _). split; lia. }
   clear Ha.
   eapply safe_bind.
@@ -555,23 +638,23 @@ Proof.
       split; [apply (adv_mv_nz z (mv z 7) 0 c); try assumption; nz || lia|cbn; lia]. }
     destruct Hz2 as [Hz2 Hz2p].
     eapply safe_bind.
-    { apply (doctype_loop_spec z2); [eauto using adv_wf|]. unfold fuel_of, lx_len. lia. }
-    cbn beta. intros r Hr. apply (scan_post_trans z) in Hr; [|exact Hz2]. destruct Hr as [Hr Hle].
-    apply (text_shift_tail z 9 r (fun t v z' => (DoctypeT, v, t, z'))); try assumption; try lia.
-    intros t v z' S1 S2 S3 S4. unfold markup_post. split; [exact S1|split; [exact S2|split; [tauto|]]].
+    { apply (doctype_loop_spec cf z2); [exact Hcf|eauto using adv_wf|]. unfold fuel_of, lx_len. lia. }
+    cbn beta zeta. intros [r hr] Hr. cbn [fst snd] in *. apply (scan_post_trans z) in Hr; [|exact Hz2]. destruct Hr as [Hr Hle].
+    apply (text_shift_tail z 9 r (fun t v z' => (DoctypeT, v, t, z', hr)) (fun x => markup_post z (fst x))); try assumption; try lia.
+    intros t v z' S1 S2 S3 S4. unfold markup_post. cbn [fst]. split; [exact S1|split; [exact S2|split; [tauto|]]].
     destruct Hr as (_ & ? & _). destruct S1 as (_ & B2 & _). split; lia. }
-  eapply safe_bind; [apply shift_bogus_spec; [exact Hw|left; lia]|]. cbn beta.
-  intros [[v t] z'] (S1 & S2 & S3). cbn [fst snd safe markup_post] in *. split; [exact S1|split; [exact S2|split; [tauto|]]].
+  eapply safe_bind; [apply shift_bogus_spec; [exact Hcf|exact Hw|left; lia]|]. cbn beta zeta.
+  intros [[[v t] z'] hr] (S1 & S2 & S3). cbn [fst snd safe markup_post] in *. split; [exact S1|split; [exact S2|split; [tauto|]]].
   destruct S1 as (_ & _ & _ & _ & ?). split; [lia|exact S3].
 Qed.
 
 (* ---- shiftXML --------------------------------------------------------------------------------------- *)
-Lemma xml_loop_spec raw z : lx_wf z -> forall fuel, (Z.to_nat (lx_len z - lpos z) < fuel)%nat ->
-  forall it q sk, safe (loop fuel (xml_body raw) (z, it, q, sk)) (sum_adv z).
+Lemma xml_loop_spec cf raw z : cfg_ok cf -> lx_wf z -> forall fuel, (Z.to_nat (lx_len z - lpos z) < fuel)%nat ->
+  forall it q sk has, safe (loop fuel (with_tmpl cf xml_cur xml_setc (xml_body raw)) (z, it, q, sk, has)) (fun r => sum_adv z (fst r) /\ (has = true -> snd r = true)).
 Proof.
-  intros Hw fuel Hf it0 q sk0.
-  apply (safe_cloop (fun s : lx * bool * Z * Z => fst (fst (fst s))) z (fun _ => True)); [|apply adv_refl, Hw|exact I|exact Hf].
-  intros [[[s it] q0] sk] Ha _. cbn [fst] in *. unfold xml_body.
+  intros Hcf Hw fuel Hf it0 q sk0 has.
+  apply (with_tmpl_cloop_has cf xml_cur xml_setc z (fun _ => True) (sum_adv z)); [exact Hcf|exact Hw|reflexivity|tauto| |apply adv_refl, Hw|exact I|exact Hf].
+  intros [[[s it] q0] sk] Ha _. unfold xml_cur in *. cbn [fst] in *. unfold xml_body.
   assert (Hws : lx_wf s) by eauto using adv_wf.
   peek0 s c Hc Hp.
   (* a step of n >= 1 bytes that stay inside the input *)
@@ -622,11 +705,11 @@ Proof.
   apply (Hstep it q0 sk). reflexivity.
 Qed.
 
-Lemma xml_close_loop_spec z : lx_wf z -> forall fuel, (Z.to_nat (lx_len z - lpos z) < fuel)%nat ->
-  safe (loop fuel xml_close_body z) (sum_adv z).
+Lemma xml_close_loop_spec cf z has : cfg_ok cf -> lx_wf z -> forall fuel, (Z.to_nat (lx_len z - lpos z) < fuel)%nat ->
+  safe (loop fuel (with_tmpl_lx cf xml_close_body) (z, has)) (fun r => sum_adv z (fst r) /\ (has = true -> snd r = true)).
 Proof.
-  intros Hw fuel Hf.
-  apply (safe_cloop (fun s => s) z (fun _ => True)); [|apply adv_refl, Hw|exact I|exact Hf].
+  intros Hcf Hw fuel Hf. unfold with_tmpl_lx.
+  apply (with_tmpl_cloop_has cf (fun s : lx => s) (fun _ z' => z') z (fun _ => True) (sum_adv z)); [exact Hcf|exact Hw|reflexivity|tauto| |apply adv_refl, Hw|exact I|exact Hf].
   intros s Ha _. unfold xml_close_body.
   assert (Hws : lx_wf s) by eauto using adv_wf.
   peek0 s c Hc Hp.
@@ -636,21 +719,22 @@ Proof.
   split; [apply (adv_mv_nz z s 0 c); try assumption; nz || lia|split; [cbn; lia|exact I]].
 Qed.
 
-Lemma shift_xml_spec raw z err : lx_wf z ->
-  safe (shift_xml raw z err) (fun r => shifted z (fst (fst r)) (snd (fst r)) /\ (err = true -> snd r = true)).
+Lemma shift_xml_spec cf raw z err has : cfg_ok cf -> lx_wf z ->
+  safe (shift_xml cf raw z err has) (fun r => shifted z (fst (fst (fst r))) (snd (fst (fst r))) /\ (err = true -> snd (fst r) = true) /\
+                                                (has = true -> snd r = true)).
 Proof.
-  intros Hw. unfold shift_xml.
-  eapply safe_bind; [apply xml_loop_spec; [exact Hw|apply fuel_enough; reflexivity || lia]|]. cbn beta.
-  intros [z'|z'] Hr; cbn [sum_adv] in Hr.
-  - eapply safe_bind; [apply xml_close_loop_spec; [eauto using adv_wf|]|].
+  intros Hcf Hw. unfold shift_xml.
+  eapply safe_bind; [apply xml_loop_spec; [exact Hcf|exact Hw|apply fuel_enough; reflexivity || lia]|]. cbn beta.
+  intros [[z'|z'] hr] [Hr Hh1]; cbn [sum_adv fst snd] in *.
+  - eapply safe_bind; [apply xml_close_loop_spec; [exact Hcf|eauto using adv_wf|]|].
     { unfold fuel_of, lx_len. lia. }
-    cbn beta. intros [z''|z''] Hr2; cbn [sum_adv] in Hr2.
+    cbn beta. intros [[z''|z''] hr2] [Hr2 Hh2]; cbn [sum_adv fst snd] in *.
     + eapply safe_bind; [apply (shiftv_adv z); [exact Hw|eauto using adv_trans]|]. cbn beta. intros s Hs.
       cbn [safe fst snd]. split; [exact Hs|tauto].
     + eapply safe_bind; [apply (shiftv_adv z); [exact Hw|eauto using adv_trans]|]. cbn beta. intros s Hs.
-      cbn [safe fst snd]. split; [exact Hs|]. intros ->. reflexivity.
+      cbn [safe fst snd]. split; [exact Hs|]. split; [intros ->; reflexivity|tauto].
   - eapply safe_bind; [apply (shiftv_adv z); assumption|]. cbn beta. intros s Hs.
-    cbn [safe fst snd]. split; [exact Hs|]. intros ->. reflexivity.
+    cbn [safe fst snd]. split; [exact Hs|]. split; [intros ->; reflexivity|tauto].
 Qed.
 
 (* ---- shiftEndTag ------------------------------------------------------------------------------------ *)
@@ -670,13 +754,14 @@ Definition shifted_low (z : lx) (v w : sl) (z' : lx) : Prop :=
   lbuf z' = lower_view (lbuf z) w /\ inview w v /\
   so v = lstart z /\ so v + sn v = lpos z' /\ lstart z' = lpos z' /\ lpos z <= lpos z' <= lx_len z.
 
-Lemma endtag_loop_end z fuel r : loop fuel endtag_body z = Ok r ->
-  (snd r = 1 /\ pk (fst r) 0 = Some 62) \/ (snd r = 0 /\ at_end (fst r) = true).
+Lemma endtag_loop_end cf z has fuel rh : loop fuel (with_tmpl_lx cf endtag_body) (z, has) = Ok rh ->
+  (snd (fst rh) = 1 /\ pk (fst (fst rh)) 0 = Some 62) \/ (snd (fst rh) = 0 /\ at_end (fst (fst rh)) = true).
 Proof.
-  intros H.
-  refine (loop_inv (fun _ => True) (fun r => (snd r = 1 /\ pk (fst r) 0 = Some 62) \/ (snd r = 0 /\ at_end (fst r) = true))
-                   endtag_body _ _ z r I H).
-  clear. intros s x _ Hx. unfold endtag_body, pkr in Hx.
+  intros H. unfold with_tmpl_lx in H.
+  refine (with_tmpl_inv cf _ _ (fun _ => True)
+            (fun rh : lx * Z * bool => (snd (fst rh) = 1 /\ pk (fst (fst rh)) 0 = Some 62) \/ (snd (fst rh) = 0 /\ at_end (fst (fst rh)) = true))
+            endtag_body _ _ fuel (z, has) rh I H); [tauto|].
+  clear. intros s h x _ Hx. unfold endtag_body, pkr in Hx.
   destruct (pk s 0) as [c|] eqn:Hp; cbn [opt_res rbind] in Hx; [|discriminate].
   destruct (c =? 62) eqn:E62; [injection Hx as <-; left; cbn [fst snd]; b2p; subst; tauto|].
   destruct (eof0 s c) eqn:Ee; injection Hx as <-; [|exact I].
@@ -698,14 +783,16 @@ Definition endtag_post (z : lx) (r : sl * sl * lx) : Prop :=
             sn t' = trim_end_len (view_bytes (lbuf z) (mkSl (so v + 2) k)) /\
             (so v + sn v = so v + 2 + k + 1 -> peekz (lbuf z) (so v + 2 + k) = Some 62).
 
-Lemma shift_endtag_spec z : lx_wf z -> lstart z + 2 <= lpos z -> safe (shift_endtag z) (endtag_post z).
+Lemma shift_endtag_spec cf z has : cfg_ok cf -> lx_wf z -> lstart z + 2 <= lpos z ->
+  safe (shift_endtag cf z has) (fun r => endtag_post z (fst r)).
 Proof.
-  intros Hw Hpre. unfold shift_endtag.
-  destruct (safe_inv _ _ (endtag_loop_spec z Hw (fuel_of z) ltac:(apply fuel_enough; reflexivity || lia))) as (r & Er & Hr).
-  rewrite Er. cbn [rbind]. pose proof Hr as (Ha & Hn & Hl).
-  assert (Hn1 : snd r <= 1) by (destruct (endtag_loop_end _ _ _ Er) as [[-> _]|[-> _]]; lia).
+  intros Hcf Hw Hpre. unfold shift_endtag.
+  destruct (safe_inv _ _ (endtag_loop_spec cf z has Hcf Hw (fuel_of z) ltac:(apply fuel_enough; reflexivity || lia))) as ([r hr] & Er & Hr).
+  rewrite Er. cbn [rbind fst snd]. cbn [fst] in Hr. pose proof Hr as (Ha & Hn & Hl).
+  pose proof (endtag_loop_end _ _ _ _ _ Er) as Hend. cbn [fst snd] in Hend.
+  assert (Hn1 : snd r <= 1) by (destruct Hend as [[-> _]|[-> _]]; lia).
   assert (Hgt : snd r = 1 -> peekz (lbuf z) (lpos (fst r)) = Some 62).
-  { intros E1. destruct (endtag_loop_end _ _ _ Er) as [[_ Hpk]|[E0 _]]; [|lia]. unfold pk in Hpk. destruct Ha as (Hb & _). rewrite Hb, Z.add_0_r in Hpk. exact Hpk. }
+  { intros E1. destruct Hend as [[_ Hpk]|[E0 _]]; [|lia]. unfold pk in Hpk. destruct Ha as (Hb & _). rewrite Hb, Z.add_0_r in Hpk. exact Hpk. }
   pose proof (adv_lpos_le _ _ Ha) as Hle.
   destruct (shift_with_text z (fst r) 2 (snd r)) as (t & v & z' & Ht & Hs & S1 & S2 & S3 & S4); try assumption; try lia.
   rewrite Ht. cbn [rbind]. rewrite Hs. cbn [rbind fst snd].
@@ -729,7 +816,7 @@ Proof.
   - pose proof (trim_end_len_bound (view_bytes (lbuf z) (mkSl (lstart z + 2) (lpos (fst r) - lstart z - 2)))) as Hb.
     rewrite len_view_bytes in Hb by (cbn [so sn]; lia). unfold inview. cbn [so sn] in *. lia.
   - apply lx_lower_wf; [exact Hw'|cbn [so sn]; lia|cbn [so sn]; lia|]. cbn [so sn]. rewrite (lx_len_same z z' B1). lia.
-  - lia.
+  - cbn [so]. lia.
   - exists (lpos (fst r) - lstart z - 2). split; [lia|]. split; [lia|]. cbn [sn]. rewrite B2. split; [reflexivity|].
     intros E. replace (lstart z + 2 + (lpos (fst r) - lstart z - 2)) with (lpos (fst r)) by lia. apply Hgt. lia.
 Qed.
@@ -765,7 +852,7 @@ Definition starttag_post (l : lexer) (z : lx) (r : Z * option sl * lexer) : Prop
   let '(ty, tk, l') := r in
   exists t, ltext l' = Some t /\ so t = lstart z + 1 /\ 0 <= sn t /\ so t + sn t <= lpos (lz l') /\
     lbuf (lz l') = lower_view (lbuf z) t /\ lx_wf (lz l') /\ lstart (lz l') = lpos (lz l') /\
-    lpos z <= lpos (lz l') <= lx_len z /\ lattr l' = lattr l /\ lhas l' = lhas l /\ (lerr l = true -> lerr l' = true) /\
+    lpos z <= lpos (lz l') <= lx_len z /\ lattr l' = lattr l /\ (lhas l = true -> lhas l' = true) /\ (lerr l = true -> lerr l' = true) /\
     ((ty = StartTagT /\ tk = Some (mkSl (lstart z) (sn t + 1)) /\ lstart z + 1 + sn t = lpos (lz l') /\
       intag l' = true /\ lerr l' = lerr l)
      \/ ((ty = SvgT \/ ty = MathT \/ ty = XmlT) /\ tk = Some (mkSl (lstart z) (lpos (lz l') - lstart z)) /\
@@ -796,11 +883,11 @@ Proof.
     split; [reflexivity|]. split; [lia|]. split; [lia|]. split; [lia|].
     split; [rewrite A1; reflexivity|]. split.
     { destruct Hw2 as ((d & Hd) & _ & Hp2). unfold lx_wf, lx_len in *. cbn [lbuf lstart lpos lx_lower] in *. split; [eauto|lia]. }
-    split; [reflexivity|]. split; [lia|]. split; [reflexivity|]. split; [reflexivity|]. split; [tauto|].
+    split; [reflexivity|]. split; [lia|]. split; [reflexivity|]. split; [tauto|]. split; [tauto|].
     left. split; [reflexivity|]. split; [f_equal; f_equal; lia|]. split; [lia|tauto]. }
   destruct (is_raw_hash h).
   - destruct (is_xml_hash h).
-    + eapply safe_bind; [apply shift_xml_spec, Hw2|]. cbn beta. intros [[d z3] e] [Hs Hee]. cbn [fst snd] in Hs, Hee.
+    + eapply safe_bind; [apply shift_xml_spec; [exact Hc|exact Hw2]|]. cbn beta. intros [[[d z3] e] hx] (Hs & Hee & Hhx). cbn [fst snd] in Hs, Hee, Hhx.
       destruct Hs as (B1 & B2 & B3 & B4 & B5). rewrite Hlen2 in B5.
       unfold lx_lower in B1, B2, B5. cbn [lbuf lstart lpos] in B1, B2, B5.
       assert (Hw3 : lx_wf z3).
@@ -808,11 +895,12 @@ Proof.
         split; [exists d2; rewrite B1; exact Hd2|lia]. }
       assert (Hcommon : forall ty tk it, 
          ((ty = SvgT \/ ty = MathT \/ ty = XmlT) /\ tk = Some d /\ it = false /\ e = false) \/ (ty = ErrorT /\ tk = None /\ it = true /\ e = true) ->
-         starttag_post l z (ty, tk, mkL z3 (rawtag l) it e (Some t) (lattr l) (lhas l))).
+         starttag_post l z (ty, tk, mkL z3 (rawtag l) it e (Some t) (lattr l) hx)).
       { intros ty tk it Hcase. cbn [starttag_post]. exists t. cbn [ltext lz lattr lhas intag lerr rawtag].
         split; [reflexivity|]. split; [cbn; lia|]. split; [cbn; lia|]. split; [cbn; lia|].
         split; [rewrite B1, A1; reflexivity|]. split; [exact Hw3|]. split; [exact B4|]. split; [lia|].
-        split; [reflexivity|]. split; [reflexivity|]. split; [exact Hee|].
+        split; [reflexivity|]. split; [|split; [exact Hee|]].
+        { exact Hhx. }
         right. destruct Hcase as [(H1 & -> & -> & ->)|(-> & -> & -> & ->)]; [left|right; tauto].
         split; [exact H1|]. split; [|tauto]. f_equal. destruct d as [o n]. cbn [so sn] in *. f_equal; lia. }
       destruct e; cbn [safe].
@@ -892,11 +980,11 @@ Proof.
   split; [eapply adv_mv1; eauto|split; [cbn; lia|exact Hj]].
 Qed.
 
-Lemma attru_loop_spec zs : lx_wf zs -> forall fuel, (Z.to_nat (lx_len zs - lpos zs) < fuel)%nat ->
-  safe (loop fuel attru_body zs) (fun z' => adv zs z').
+Lemma attru_loop_spec cf zs nh : cfg_ok cf -> lx_wf zs -> forall fuel, (Z.to_nat (lx_len zs - lpos zs) < fuel)%nat ->
+  safe (loop fuel (with_tmpl_lx cf attru_body) (zs, nh)) (fun r => adv zs (fst r) /\ (nh = true -> snd r = true)).
 Proof.
-  intros Hw fuel Hf.
-  apply (safe_cloop (fun s => s) zs (fun _ => True)); [|apply adv_refl, Hw|exact I|exact Hf].
+  intros Hcf Hw fuel Hf. unfold with_tmpl_lx.
+  apply (with_tmpl_cloop_has cf (fun s : lx => s) (fun _ z' => z') zs (fun _ => True) (fun z' => adv zs z')); [exact Hcf|exact Hw|reflexivity|tauto| |apply adv_refl, Hw|exact I|exact Hf].
   intros s Ha _. unfold attru_body. peek0 s c0 Hc0 Hp0.
   destruct (eof0 s c0) eqn:Ee.
   { rewrite !orb_true_r. cbn. exact Ha. }
@@ -976,8 +1064,8 @@ Proof.
             eapply safe_mono.
             { apply attrq_loop_spec; [exact Hc|eauto using adv_wf|exact Hc1|]. unfold fuel_of, lx_len. cbn [mv lbuf lpos]. lia. }
             cbn beta. intros r [Hq1 Hq2]. split; [eauto using adv_trans|exact Hq2].
-          + eapply safe_bind; [apply attru_loop_spec; [exact Hw3|apply fuel_enough; reflexivity || lia]|].
-            cbn beta. intros z4 Hz4. cbn [safe fst snd]. tauto. }
+          + eapply safe_mono; [apply attru_loop_spec; [exact Hc|exact Hw3|apply fuel_enough; reflexivity || lia]|].
+            cbn beta. intros r [Hq1 Hq2]. tauto. }
       cbn beta. intros r [Hq1 Hq2].
       pose proof (adv_lpos_le _ _ Hq1) as Hle. pose proof (adv_lstart _ _ Hq1) as Hstr.
       pose proof (adv_lstart _ _ Ha3) as Hst3.
